@@ -249,7 +249,7 @@ def atoms_before(func, node, repo=None, nonnull=()):
     """relfacts atoms (subject, 'none', polarity) that hold whenever the
     statement containing expression `node` starts"""
     key = (id(func.node), tuple(sorted(nonnull)))
-    if key not in _CACHE:
+    if key not in _CACHE or _CACHE[key][2] is not func.node:
         IN = analyse(func.node, repo, nonnull,
                      getattr(func, 'module', None))
         owner = {}
@@ -257,8 +257,8 @@ def atoms_before(func, node, repo=None, nonnull=()):
             if isinstance(st, ast.stmt):
                 for x in ast.walk(st):
                     owner.setdefault(id(x), []).append(st)
-        _CACHE[key] = (IN, owner)
-    IN, owner = _CACHE[key]
+        _CACHE[key] = (IN, owner, func.node)
+    IN, owner = _CACHE[key][:2]
     sts = owner.get(id(node))
     if not sts:
         return []
